@@ -2095,11 +2095,6 @@ class Frame(object):
             if n == 'iter' and len(args) == 1 and not kwargs and isinstance(args[0], Const) and isinstance(args[0].value, (tuple, list, bytes, bytearray)):
                 record(n)
                 return args[0]          # iterating iter(<literal sequence>) is iterating the sequence
-<<<<<<< HEAD
-            if n in ('iter', 'list', 'tuple') and len(args) == 1 and isinstance(args[0], ListV) and not kwargs:
-                record(n)
-                return ListV(list(args[0].elems), 'tuple' if n == 'tuple' else 'list')
-=======
             if n == 'zip' and args and not kwargs and all(isinstance(a, ListV) and not any(isinstance(e, EachV) for e in a.elems) for a in args):
                 record(n)
                 return ListV([ListV(list(t), 'tuple') for t in zip(*[a.elems for a in args])], 'list')
@@ -2111,7 +2106,9 @@ class Frame(object):
                 # divmod(a, b) == (a // b, a % b)
                 record(n)
                 return ListV([self.binop(ast.FloorDiv(), args[0], args[1]), self.binop(ast.Mod(), args[0], args[1])], 'tuple')
->>>>>>> main
+            if n in ('iter', 'list', 'tuple') and len(args) == 1 and isinstance(args[0], ListV) and not kwargs:
+                record(n)
+                return ListV(list(args[0].elems), 'tuple' if n == 'tuple' else 'list')
             if n == 'reversed' and len(args) == 1 and isinstance(args[0], ListV):
                 rev = []
                 for e in reversed(args[0].elems):
